@@ -641,6 +641,19 @@ program_t *load_binary (const char *name) {
     }
   for (iname = buf; iname < buf + len; iname += strlen (iname) + 1)
     {
+      if (iname[0] == '!')
+        {
+          /* a file that did not exist where an #include looked first: if it exists now,
+           * the directive means that file and no longer the one recorded after it */
+          if (check_times (mtime, iname + 1) != -1)
+            {
+              opt_trace (TT_COMPILE|3, "out of date (an include file is shadowed by /%s).", iname + 1);
+              fclose (f);
+              FREE (buf);
+              return OUT_OF_DATE;
+            }
+          continue;
+        }
       if (check_times (mtime, iname) <= 0)
         {
           opt_trace (TT_COMPILE|3, "out of date (include file is newer).");
